@@ -432,6 +432,20 @@ Example tail_field_examples :
   end.
 Proof. vm_compute. repeat split; reflexivity. Qed.
 
+(* WKS: the bitmap is rebuilt from the listed ports (here ports 0, 7, 8 and 23 -> 0x81 0x80 0x01); no port at all *)
+Example wks_examples :
+  match schema_of 11 with
+  | Some wks =>
+      let w1 := [VBytes [10; 0; 0; 1]; VInt 6; VBytes [129; 128; 1]] in
+      let w0 := [VBytes [255; 255; 255; 255]; VInt 255; VBytes []] in
+      (do text <- record_to_text ex_sty wks w1; record_from_text ex_ctx wks (schema_chk 11) text) = Ok w1
+      /\ (do text <- record_to_text ex_sty wks w1; Ok text) = Ok [49;48;46;48;46;48;46;49;32;54;32;48;32;55;32;56;32;50;51]
+      /\ (do text <- record_to_text ex_sty wks w0; record_from_text ex_ctx wks (schema_chk 11) (text ++ [10])) = Ok w0
+      /\ record_from_text ex_ctx wks (schema_chk 11) [49;46;50;46;51;46;52;32;54;32;54;53;53;51;54] = Lib eSyntax   (* port 65536 *)
+  | None => False
+  end.
+Proof. vm_compute. repeat split; reflexivity. Qed.
+
 (* APL: items of the three address families (the IPv6 address contains colons: the first colon splits), the
    empty list, a missing prefix *)
 Example apl_examples :
